@@ -552,12 +552,13 @@ def r5(ctx, sch):
 
 def check(ctx):
     ctx.explanation = (
-        "Relation writers and readers are compared with the specification: the GFF importer's level-1 insert is read off "
-        "the AST/CFG (loop over the whole Parent value, row shape, conflict clause, ordering after id assignment); the "
-        "level-2 SELECT is normalised to a conjunctive query and compared, up to alias renaming, with the composition "
-        "of two level-1 edges; children()/parents() are evaluated by partitioned dataflow through _relation and "
-        "make_query and each generated statement's conjunctive query is compared with the specified join. Does not "
-        "decide behaviour under every permutation of lines or 'never its own relative' (data-dependent).")
+        "Level-1 relations are decided on interprocedural value provenance (which values reach the bound columns of the relation insert, through "
+        "helpers and temporaries) and on the line loop's CFG (every pass that stored the feature row passes the relation writer or a "
+        "Parent-absence edge; the id is final before the writer); the level-2 SELECT is normalised to a conjunctive query and compared, up to "
+        "alias renaming, with the composition of two level-1 edges; the closure file's writer and reader are matched field by field on "
+        "provenance; children()/parents() are evaluated by partitioned dataflow through _relation and make_query and each generated "
+        "statement's conjunctive query is compared with the specified join. Does not decide behaviour under every permutation of lines or "
+        "'never its own relative' (data-dependent).")
     sch = schema(ctx)
     r1(ctx, sch)
     r2(ctx, sch)
